@@ -235,6 +235,17 @@ def gen(ck):
                 tr.append((ident_k, 0, rng.choice([0, 0, 0, 0, 3])))
             trs.append(tr)
         cases.append((trs, rng.choice(['plain', 'skip', 'file'])))
+    # EQUAL messages (same values, distinct objects) on the same tick, in one track and across tracks: the tempo map repeated
+    # in every track of a type-1 file, doubled notes, the same marker everywhere - each of them is an event of the result
+    for _ in range(600 if not thorough else 15000):
+        trs = []
+        eq = rng.choice([400000 + rng.randint(0, 5), 300000 + rng.randint(1, 120), 3 * rng.randint(1, 50), 1400001 + 2 * rng.randint(0, 9)])
+        for _t in range(rng.choice([1, 2, 2, 3])):
+            tr = []
+            for _e in range(rng.randint(1, 4)):
+                tr.append((eq if rng.random() < 0.7 else rng.randint(1, 200), 0, rng.choice([0, 0, 0, 2])))
+            trs.append(tr)
+        cases.append((trs, rng.choice(['plain', 'skip', 'file'])))
     # very many tracks (the merge must not depend on the depth of the call stack)
     for ntr in ([1200] if not thorough else [500, 1200, 3000]):
         cases.append(([[(i + 1, 0, i % 7)] for i in range(ntr)], 'plain'))
